@@ -231,11 +231,23 @@ def value_floats(limit: float):
 # parameter sets (file round trips)
 
 
+#: whole-cell missing-value tokens of the pandas readers that are valid flat labels
+NA_TOKEN_LABELS = ["NA", "null", "none", "NaN", "NULL"]
+
+
 @st.composite
-def parameter_sets(draw, fmt: str):
+def parameter_sets(draw, fmt: str | None, na_labels: bool = False):
+    sub = None
+    if fmt is None:
+        fmt = draw(st.sampled_from(["csv", "tsv", "xlsx", "ods"]))
+        sub = "na_label"
     limit = SHEET_LIMIT if fmt in ("xlsx", "ods") else DBL_MAX
     mode = draw(st.sampled_from(LABEL_MODES))
     labels = draw(label_lists(mode, 10 if draw(st.booleans()) else 4))
+    if na_labels:
+        mode = "na_token"
+        labels = draw(st.lists(st.sampled_from(WORDS), max_size=3, unique=True))
+        labels.insert(draw(st.integers(0, len(labels))), draw(st.sampled_from(NA_TOKEN_LABELS)))
     n = len(labels)
     expr_mode = draw(st.sampled_from(["none", "none", "numeric", "trees", "trees", "numeric_and_trees"]))
     col_mode = {c: draw(st.sampled_from(["default", "all", "mixed"])) for c in ("minimum", "maximum", "standard_error", "vary", "non_negative")}
@@ -302,6 +314,8 @@ def parameter_sets(draw, fmt: str):
                 stale.append([p["label"], float(v)])
     case = {"fmt": fmt, "label_mode": mode, "expr_mode": expr_mode, "params": params, "stale": stale, "cycles": 3,
             "explicit_format": draw(st.booleans())}
+    if sub:
+        case["sub"] = sub
     if fmt == "csv":
         case["sep"] = draw(st.sampled_from([",", ",", ";", "\t", "|"]))
     if fmt in ("csv", "tsv"):
